@@ -5,7 +5,7 @@ import json, subprocess
 PROPS = [json.loads(l)["id"] for l in open("/verif/properties.jsonl")]
 
 OST_NOTE = ("Trusted: TLC; the TLA+ modules (Outstation.tla, EvLedger.tla, Mon_%s.tla); the harness codec (independent of dnp3) and "
-            "tokio's paused clock. Bounded constants in the design check (2 points, <=3 updates, depth 6 quick / 7 thorough); "
+            "tokio's paused clock. Bounded constants in the design check (2 points, <=3 updates, depth 5 quick / 6 thorough (events), 4 / 5 (controls)); "
             "conformance and monitor verdicts hold for the executed scenarios only.")
 
 CLAIMS = {
@@ -119,11 +119,11 @@ CLAIMS["C02"] = dict(
          "unsolicited reporting, cuts that lose what is in flight, reconnects with the integrity poll, late timeouts. TLC checks the safety invariants (nothing fabricated or cross-wired, no event released before "
          "it was received, static values never go backwards) and, under weak fairness of the system's actions, the two liveness properties (after the environment stops every point's current value and every event not "
          "discarded reach the handler). TLC-generated behaviours of the environment (plus directed cuts while a fragment is in flight) are replayed on the real master and the real outstation connected through a proxy "
-         "with seeded one-way delays, re-chunking and cuts (harness pair mode); Mon_C02 (TLC trace validation) judges the S-trace: every value the ReadHandler received against the update history, convergence and "
+         "with seeded one-way delays, re-chunking and cuts (harness pair mode); a sample of the same behaviours also runs on the library's real TCP client and server over the loopback interface with the multi-threaded runtime and the real clock (harness sock mode). Mon_C02 (TLC trace validation) judges the S-trace: every value the ReadHandler received against the update history, convergence and "
          "event completeness at the end.",
     ref="§7 C02", technique="TLA+ model checking with liveness (TLC) + trace validation of replayed behaviours (paired master and outstation)",
-    note="Trusted: TLC, System.tla (abstracts the protocol to versions, fragments and confirms; bounded constants: 2 points, <= 3 updates, <= 2 cuts, capacity 1-2), the harness proxy. The real TCP stack and the "
-         "multi-threaded scheduling of the quantifier are replaced by in-memory pipes and a current-thread runtime with a paused clock: logical interleavings are covered, OS-thread schedules and sockets are not. "
+    note="Trusted: TLC, System.tla (abstracts the protocol to versions, fragments and confirms; bounded constants: 2 points, <= 3 updates, <= 2 cuts, capacity 1-2), the harness proxy. Most executions use in-memory pipes and a current-thread runtime with a paused clock (exact control of what is in flight); the real TCP stack and multi-threaded scheduling are exercised by the "
+         "socket sample only, with whatever OS-thread schedules occur. "
          "Analog input points only; commands are not part of the scenarios.")
 
 def main():
